@@ -1,10 +1,10 @@
 #!/bin/sh
-# usage: trymutant.sh <patch.diff> <prop> [tier]  — applies the patch to /repo, runs the check, reverts.
+# usage: trymutant.sh <patch.diff> <prop> [tier]
+# Applies the patch in a private scratch worktree of /repo (never to /repo itself), runs the check
+# against that worktree through the build overlay (PIKEMC_SRC), removes the worktree.
 P="$1"; ID="$2"; TIER="${3:-quick}"
-cd /repo || exit 2
-if [ -n "$(git status --porcelain)" ]; then echo "repo not clean"; exit 2; fi
-git apply "$P" || { echo "patch does not apply"; exit 2; }
-/verif/check.sh "$ID" "$TIER" 2>&1 | tail -6 | cut -c1-400
-RC=$?
-git checkout -- . ; git clean -fdq
-exit $RC
+WT=/tmp/mut-$$-$(date +%s%N)
+git -C /repo worktree add -q --detach "$WT" HEAD || exit 2
+trap 'git -C /repo worktree remove --force "$WT" >/dev/null 2>&1' EXIT
+( cd "$WT" && git apply "$P" ) || { echo "patch does not apply"; exit 2; }
+PIKEMC_SRC="$WT" PIKEMC_EVIDENCE_DIR=/tmp/mut-evidence /verif/check.sh "$ID" "$TIER" 2>&1 | tail -8 | cut -c1-400
